@@ -1,0 +1,129 @@
+//go:build verif
+
+package verifier
+
+import (
+	"sort"
+
+	"github.com/zmap/zcrypto/x509"
+)
+
+// Verification hooks for the PKI graph (add-only, build tag verif).
+
+// VerifNode is a dump of one GraphNode.  Nodes are identified by the
+// (subject, SPKI) fingerprint that keys Graph.nodesBySubjectAndKey.
+type VerifNode struct {
+	SKFP       string // SubjectAndKey.Fingerprint
+	RawSubject []byte
+	RawSPKI    []byte
+	// parentsBySubjectAndKey / childrenBySubjectAndKey: map key (a node
+	// fingerprint) -> certificate fingerprints of the edges in the set
+	Parents  map[string][]string
+	Children map[string][]string
+}
+
+// VerifEdge is a dump of one GraphEdge.
+type VerifEdge struct {
+	CertFP    string // Certificate.FingerprintSHA256
+	MapKey    string // key under which the edge is stored in Graph.edges
+	HasIssuer bool
+	IssuerFP  string // issuer.SubjectAndKey.Fingerprint when HasIssuer
+	HasChild  bool
+	ChildFP   string
+	Root      bool
+}
+
+// VerifGraphDump is a dump of every field of a Graph.
+type VerifGraphDump struct {
+	Nodes          []VerifNode         // in g.nodes order (creation order)
+	Edges          []VerifEdge         // sorted by CertFP
+	BySubjectAndKe map[string]string   // nodesBySubjectAndKey: map key -> node fingerprint
+	BySubject      map[string][]string // nodesBySubject: raw subject -> node fingerprints in slice order
+	Missing        map[string][]string // missingIssuerNode: raw issuer -> edge certificate fingerprints (sorted)
+}
+
+func verifEdgeSet(es *GraphEdgeSet) []string {
+	var out []string
+	for k, e := range es.edges {
+		fp := string(e.Certificate.FingerprintSHA256)
+		if k != fp {
+			fp = "badkey:" + k + ":" + fp
+		}
+		out = append(out, fp)
+	}
+	sort.Strings(out)
+	return out
+}
+
+// VerifDump returns a dump of all internal indices of g.
+func VerifDump(g *Graph) *VerifGraphDump {
+	d := &VerifGraphDump{
+		BySubjectAndKe: map[string]string{},
+		BySubject:      map[string][]string{},
+		Missing:        map[string][]string{},
+	}
+	for _, n := range g.nodes {
+		vn := VerifNode{
+			SKFP:       string(n.SubjectAndKey.Fingerprint),
+			RawSubject: n.SubjectAndKey.RawSubject,
+			RawSPKI:    n.SubjectAndKey.RawSubjectPublicKeyInfo,
+			Parents:    map[string][]string{},
+			Children:   map[string][]string{},
+		}
+		for k, es := range n.parentsBySubjectAndKey {
+			vn.Parents[string(k)] = verifEdgeSet(es)
+		}
+		for k, es := range n.childrenBySubjectAndKey {
+			vn.Children[string(k)] = verifEdgeSet(es)
+		}
+		d.Nodes = append(d.Nodes, vn)
+	}
+	for k, e := range g.edges.edges {
+		ve := VerifEdge{CertFP: string(e.Certificate.FingerprintSHA256), MapKey: k, Root: e.root}
+		if e.issuer != nil {
+			ve.HasIssuer = true
+			ve.IssuerFP = string(e.issuer.SubjectAndKey.Fingerprint)
+		}
+		if e.child != nil {
+			ve.HasChild = true
+			ve.ChildFP = string(e.child.SubjectAndKey.Fingerprint)
+		}
+		d.Edges = append(d.Edges, ve)
+	}
+	sort.Slice(d.Edges, func(i, j int) bool { return d.Edges[i].CertFP < d.Edges[j].CertFP })
+	for k, n := range g.nodesBySubjectAndKey {
+		d.BySubjectAndKe[string(k)] = string(n.SubjectAndKey.Fingerprint)
+	}
+	for k, ns := range g.nodesBySubject {
+		for _, n := range ns {
+			d.BySubject[k] = append(d.BySubject[k], string(n.SubjectAndKey.Fingerprint))
+		}
+	}
+	for k, es := range g.missingIssuerNode {
+		d.Missing[k] = verifEdgeSet(es)
+	}
+	return d
+}
+
+// VerifNodePublicKey returns the public key held by the node with the given
+// (subject, SPKI) fingerprint, or nil.
+func VerifNodePublicKey(g *Graph, skfp string) interface{} {
+	n := g.nodesBySubjectAndKey[subjectAndKeyFingerprint(skfp)]
+	if n == nil {
+		return nil
+	}
+	return n.SubjectAndKey.PublicKey
+}
+
+// VerifCanAddToChain exposes canAddToChain (true = admitted).
+func VerifCanAddToChain(c *x509.Certificate, certType x509.CertificateType, chain x509.CertificateChain) bool {
+	return canAddToChain(c, certType, chain) == nil
+}
+
+// VerifMaxIntermediateCount exposes the walk's depth limit.
+const VerifMaxIntermediateCount = maxIntermediateCount
+
+// VerifParentsFromChains exposes parentsFromChains.
+func VerifParentsFromChains(chains []x509.CertificateChain) []*x509.Certificate {
+	return parentsFromChains(chains)
+}
